@@ -322,6 +322,9 @@ def put_model(mjm: mujoco.MjModel, batch_sizes: dict[str, int] | None = None) ->
   if mjm.opt.noslip_iterations > 0:
     raise NotImplementedError(f"noslip solver not implemented.")
 
+  if mjm.opt.disableactuator:
+    raise NotImplementedError("Actuator group disabling (actuatorgroupdisable) is not supported.")
+
   if (mjm.body_plugin != -1).any():
     raise NotImplementedError("Body plugins not supported.")
 
